@@ -30,6 +30,7 @@ pub struct HybCfg {
     pub lru: bool,
     pub blocks: usize,
     pub flushers: usize,
+    pub lossy: bool,
     pub hmode: HMode,
     pub keys: u64,
 }
@@ -37,7 +38,7 @@ pub struct HybCfg {
 impl HybCfg {
     pub fn line(&self) -> String {
         format!(
-            "cfg domain=hyb policy={} foc={} tomb={} memcap={} memalgo={} blocks={} flushers={} hmode={} keys={}",
+            "cfg domain=hyb policy={} foc={} tomb={} memcap={} memalgo={} blocks={} flushers={} lossy={} hmode={} keys={}",
             if self.woi { "woi" } else { "woe" },
             self.foc as u8,
             self.tomb as u8,
@@ -45,6 +46,7 @@ impl HybCfg {
             if self.lru { "lru" } else { "fifo" },
             self.blocks,
             self.flushers,
+            self.lossy as u8,
             self.hmode.show(),
             self.keys
         )
@@ -60,6 +62,7 @@ impl HybCfg {
             lru: g("memalgo", "fifo") == "lru",
             blocks: g("blocks", "8").parse().unwrap_or(8),
             flushers: g("flushers", "1").parse().unwrap_or(1),
+            lossy: g("lossy", "0") == "1",
             hmode: HMode::parse(&g("hmode", "id")),
             keys: g("keys", "4").parse().unwrap_or(4),
         }
@@ -82,7 +85,8 @@ pub enum HOp {
     Hold,
     Unhold,
     Gate,
-    Release { nth: usize },
+    /// complete the batch whose writes are in flight; the gate stays closed for the next one
+    ReleaseBatch,
     ReleaseAll,
     Reopen,
 }
@@ -90,10 +94,11 @@ pub enum HOp {
 pub fn size_of(sz: char) -> usize {
     match sz {
         's' => 64,
-        'm' => PAGE - 36 - 8 - 8 - 8,          // exactly one page on disk
-        'n' => PAGE - 36 - 8 - 8 - 8 + 1,      // one byte over: two pages
-        'l' => 3 * PAGE - 36 - 8 - 8 - 8,      // the per-entry maximum (block 16K - index 4K)
-        'x' => 3 * PAGE - 36 - 8 - 8 - 8 + 1,  // one byte beyond the per-entry disk limit
+        // on disk: 36 bytes of header + 8 (u64 key) + 8 (length prefix of the value) + the value
+        'm' => PAGE - 36 - 8 - 8,          // exactly one page on disk
+        'n' => PAGE - 36 - 8 - 8 + 1,      // one byte over: two pages
+        'l' => 3 * PAGE - 36 - 8 - 8,      // the per-entry maximum (block 16K - index 4K)
+        'x' => 3 * PAGE - 36 - 8 - 8 + 1,  // one byte beyond the per-entry disk limit
         _ => 16,
     }
 }
@@ -113,7 +118,19 @@ pub fn parse_value(v: &[u8]) -> (u64, u64) {
     (u64::from_le_bytes(v[0..8].try_into().unwrap()), u64::from_le_bytes(v[8..16].try_into().unwrap()))
 }
 
+struct EvListener {
+    log: Arc<parking_lot::Mutex<Vec<(foyer_common::event::Event, u64, u64)>>>,
+}
+impl foyer_common::event::EventListener for EvListener {
+    type Key = u64;
+    type Value = Vec<u8>;
+    fn on_leave(&self, reason: foyer_common::event::Event, key: &u64, value: &Vec<u8>) {
+        self.log.lock().push((reason, *key, parse_value(value).1));
+    }
+}
+
 pub struct HExec {
+    pub evlog: Arc<parking_lot::Mutex<Vec<(foyer_common::event::Event, u64, u64)>>>,
     pub cfg: HybCfg,
     pub rt: tokio::runtime::Runtime,
     pub dir: tempfile::TempDir,
@@ -135,6 +152,7 @@ impl HExec {
         let rt = tokio::runtime::Builder::new_current_thread().enable_all().build().unwrap();
         let dir = tempfile::tempdir().unwrap();
         let mut ex = HExec {
+            evlog: Default::default(),
             cfg,
             rt,
             dir,
@@ -159,6 +177,7 @@ impl HExec {
         let switch = self.switch.clone();
         let path = self.dir.path().to_path_buf();
         let cap = self.device_capacity();
+        let evlog = self.evlog.clone();
         let cache = self.rt.block_on(async move {
             let device = FsDeviceBuilder::new(&path).with_capacity(cap).build().unwrap();
             let engine = BlockEngineConfig::new(device)
@@ -168,11 +187,12 @@ impl HExec {
                 .with_reclaimers(1)
                 .with_indexer_shards(2)
                 .with_recover_concurrency(2)
-                .with_buffer_pool_size(64 * 1024 * cfg.flushers)
+                .with_buffer_pool_size(2 * 1024 * 1024 * cfg.flushers)
                 .with_clean_block_threshold(1)
                 .with_tombstone_log(cfg.tomb)
                 .with_flush_switch(switch);
             let b = HybridCacheBuilder::new()
+                .with_event_listener(Arc::new(EvListener { log: evlog }))
                 .with_policy(if cfg.woi { HybridCachePolicy::WriteOnInsertion } else { HybridCachePolicy::WriteOnEviction })
                 .with_flush_on_close(cfg.foc)
                 .memory(cfg.memcap)
@@ -213,7 +233,7 @@ impl HExec {
             HOp::Hold => "op=hold".into(),
             HOp::Unhold => "op=unhold".into(),
             HOp::Gate => "op=gate".into(),
-            HOp::Release { nth } => format!("op=release nth={nth}"),
+            HOp::ReleaseBatch => "op=releasebatch".into(),
             HOp::ReleaseAll => "op=releaseall".into(),
             HOp::Reopen => "op=reopen".into(),
         }
@@ -225,10 +245,11 @@ impl HExec {
         let pending = self.sim.pending_ids().len();
         match op {
             HOp::Wait | HOp::Reopen | HOp::Clear => !gated && !self.held && pending == 0,
-            HOp::Release { nth } => *nth < pending,
+            HOp::ReleaseBatch => gated && pending > 0,
             HOp::ReleaseAll => gated || pending > 0,
-            HOp::Gate => !gated,
-            HOp::Hold => !self.held,
+            // completion-order control is modelled for a single flusher (one batch in flight at a time)
+            HOp::Gate => !gated && !self.held && self.cfg.flushers == 1,
+            HOp::Hold => !self.held && !gated && pending == 0,
             HOp::Unhold => self.held,
             _ => true,
         }
@@ -237,6 +258,7 @@ impl HExec {
     pub fn exec(&mut self, op: &HOp) -> String {
         crate::progress(&Self::op_text(op));
         let mut line = Self::op_text(op);
+        self.evlog.lock().clear();
         let log_from = self.sim.next_id();
         let cache = self.cache.clone().unwrap();
         let mut ret = String::from("ok");
@@ -345,12 +367,26 @@ impl HExec {
             HOp::Unhold => {
                 self.switch.off();
                 self.held = false;
+                // the switch does not wake the flusher: a `wait()` does (and returns once it flushed)
+                let c = cache.clone();
+                self.rt.block_on(async move { c.storage().wait().await });
             }
             HOp::Gate => self.sim.set_gated(true),
-            HOp::Release { nth } => {
-                let ids = self.sim.pending_ids();
-                if let Some(id) = ids.get(*nth) {
-                    self.sim.release(*id);
+            HOp::ReleaseBatch => {
+                // round 1: the batch's data writes (and its tombstone page); round 2: its blob index
+                // pages, which are issued only after the data completed.  The next batch is issued
+                // only after that, and stays gated.
+                let first_block = if self.cfg.tomb { 1 } else { 0 };
+                let had_data = self
+                    .sim
+                    .pending_recs()
+                    .iter()
+                    .any(|w| w.partition >= first_block && w.offset > 0);
+                self.sim.release_all();
+                self.settle();
+                if had_data {
+                    self.sim.release_all();
+                    self.settle();
                 }
             }
             HOp::ReleaseAll => {
@@ -382,13 +418,30 @@ impl HExec {
         self.settle();
         let cache = self.cache.clone().unwrap();
         let wl = self.sim.log_since(log_from);
-        let wbytes: usize = wl.iter().map(|w| w.data.len()).sum();
+        // bytes written to block partitions (the tombstone log, when enabled, is partition 0)
+        let first_block = if self.cfg.tomb { 1 } else { 0 };
+        let wbytes: usize = wl.iter().filter(|w| w.partition >= first_block).map(|w| w.data.len()).sum();
+        let evs: Vec<String> = self
+            .evlog
+            .lock()
+            .iter()
+            .map(|(e, k, v)| {
+                let n = match e {
+                    foyer_common::event::Event::Evict => "evict",
+                    foyer_common::event::Event::Replace => "replace",
+                    foyer_common::event::Event::Remove => "remove",
+                    foyer_common::event::Event::Clear => "clear",
+                };
+                format!("{n}:{k}:{v}")
+            })
+            .collect();
         let wlog: Vec<String> = wl.iter().map(|w| format!("{}:{}:{}", w.partition, w.offset, w.data.len())).collect();
         let mem: Vec<String> = (0..self.cfg.keys).filter(|k| cache.memory().contains(k)).map(|k| k.to_string()).collect();
         let disk: Vec<String> = (0..self.cfg.keys).filter(|k| cache.storage().may_contains(k)).map(|k| k.to_string()).collect();
         let _ = write!(
             line,
-            " ret={ret} w={wbytes} wlog={} mem={} disk={} pending={}",
+            " ret={ret} w={wbytes} ev={} wlog={} mem={} disk={} pending={}",
+            show(evs),
             show(wlog),
             show(mem),
             show(disk),
@@ -410,27 +463,45 @@ fn src_name(s: Source) -> &'static str {
     }
 }
 
-pub fn gen_cfg(rng: &mut Rng) -> HybCfg {
+#[derive(Clone, Copy, Default)]
+pub struct GenOpts {
+    pub big: bool,
+    /// close + reopen three times as often
+    pub reopen: bool,
+    /// only colliding hashers (constant / mod 2)
+    pub collide: bool,
+}
+
+pub fn gen_cfg(rng: &mut Rng, o: GenOpts) -> HybCfg {
+    let lossy = rng.chance(1, 4);
     HybCfg {
         woi: rng.chance(1, 2),
         foc: rng.chance(3, 4),
         tomb: rng.chance(1, 2),
         memcap: rng.range(1, 4) as usize,
         lru: rng.chance(1, 3),
-        blocks: *rng.pick(&[4usize, 6, 8]),
-        flushers: *rng.pick(&[1usize, 1, 2]),
-        hmode: match rng.below(6) {
-            0 => HMode::Const(7),
-            1 => HMode::Mod(2),
+        // most cases stay below the device capacity (the model then predicts the disk tier exactly);
+        // a quarter run on a tiny device where block reclaim drops entries ("lossy": the model follows
+        // the losses the trace shows and still checks everything else)
+        blocks: if lossy { *rng.pick(&[4usize, 6, 8]) } else { 64 },
+        flushers: if lossy { 1 } else { *rng.pick(&[1usize, 1, 2]) },
+        lossy,
+        hmode: match (o.collide, rng.below(6)) {
+            (true, 0..=2) | (false, 0) => HMode::Const(7),
+            (true, _) | (false, 1) => HMode::Mod(2),
             _ => HMode::Id,
         },
         keys: rng.range(2, 5),
     }
 }
 
-pub fn gen_op(rng: &mut Rng, ex: &HExec, big: bool) -> HOp {
+pub fn gen_op(rng: &mut Rng, ex: &HExec, o: GenOpts) -> HOp {
     let keys = ex.cfg.keys;
+    let big = o.big;
     loop {
+        if o.reopen && rng.chance(1, 12) && ex.enabled(&HOp::Reopen) {
+            return HOp::Reopen;
+        }
         let op = match rng.below(100) {
             0..=27 => HOp::Ins {
                 k: rng.below(keys),
@@ -448,7 +519,7 @@ pub fn gen_op(rng: &mut Rng, ex: &HExec, big: bool) -> HOp {
             83..=85 => HOp::Hold,
             86..=89 => HOp::Unhold,
             90..=91 => HOp::Gate,
-            92..=94 => HOp::Release { nth: rng.below(3) as usize },
+            92..=94 => HOp::ReleaseBatch,
             95..=96 => HOp::ReleaseAll,
             _ => HOp::Reopen,
         };
@@ -458,28 +529,15 @@ pub fn gen_op(rng: &mut Rng, ex: &HExec, big: bool) -> HOp {
     }
 }
 
-pub fn run_case(rng: &mut Rng, maxops: u64, big: bool) -> String {
-    let cfg = gen_cfg(rng);
+pub fn run_case(rng: &mut Rng, maxops: u64, o: GenOpts) -> String {
+    let cfg = gen_cfg(rng, o);
     let mut out = cfg.line();
     out.push('\n');
     *crate::CUR_TRACE.lock() = out.clone();
     let mut ex = HExec::new(cfg);
     let n = rng.range(2, maxops);
-    let mut queued = 0usize;
     for _ in 0..n {
-        let op = gen_op(rng, &ex, big);
-        // keep the flush buffer from overflowing while flushing is held / gated (documented shed)
-        if let HOp::Ins { sz, .. } = &op {
-            if ex.held || ex.sim.st.lock().gated {
-                queued += size_of(*sz) + 4096;
-                if queued > 40 * 1024 {
-                    continue;
-                }
-            }
-        }
-        if matches!(op, HOp::Unhold | HOp::ReleaseAll) {
-            queued = 0;
-        }
+        let op = gen_op(rng, &ex, o);
         out.push_str(&ex.exec(&op));
         out.push('\n');
     }
@@ -513,7 +571,7 @@ pub fn parse_op(f: &BTreeMap<String, String>) -> Option<HOp> {
         "hold" => HOp::Hold,
         "unhold" => HOp::Unhold,
         "gate" => HOp::Gate,
-        "release" => HOp::Release { nth: n("nth") as usize },
+        "releasebatch" => HOp::ReleaseBatch,
         "releaseall" => HOp::ReleaseAll,
         "reopen" => HOp::Reopen,
         _ => return None,
@@ -564,11 +622,15 @@ pub fn main(args: &Args) -> i32 {
     let seed = arg_u64(args, "seed", 0);
     let cases = arg_u64(args, "cases", 50);
     let maxops = arg_u64(args, "maxops", 25);
-    let big = arg_u64(args, "big", 0) == 1;
+    let o = GenOpts {
+        big: arg_u64(args, "big", 0) == 1,
+        reopen: arg_u64(args, "reopen", 0) == 1,
+        collide: arg_u64(args, "collide", 0) == 1,
+    };
     let mut rng = Rng::new(seed ^ 0x4B1D);
     for _ in 0..cases {
         let mut r = rng.fork();
-        let t = run_case(&mut r, maxops, big);
+        let t = run_case(&mut r, maxops, o);
         crate::CUR_TRACE.lock().clear();
         print!("{t}");
     }
